@@ -382,7 +382,8 @@ func (n *pgNode) redeclares(scope []string) bool {
 	return false
 }
 
-var pgLazyStages = map[string]bool{"map": true, "accept": true, "compact": true, "combine": true, "number": true, "iir": true}
+var pgLazyStages = map[string]bool{"map": true, "accept": true, "compact": true, "combine": true, "number": true, "iir": true,
+	"combine3": true, "combineN": true, "iirCombine": true, "cross": true, "merge": true}
 
 // hasLazyStage: a method call that creates a lazy list stage with a callback
 func (n *pgNode) hasLazyStage() bool {
